@@ -384,6 +384,26 @@ def lazy_checks(stream, msgs, rng, rec):
                     break
         except Exception as ex:
             rec.count(f"lazy_{fe_name}_decode_error")
+    # a real buffered file object (what the command line hands over)
+    import os
+    import tempfile
+
+    fd, tmpname = tempfile.mkstemp(prefix="vt_c10_")
+    try:
+        with os.fdopen(fd, "wb") as fh:
+            fh.write(carried)
+        whole = [TR.record_event(ev) for ev in Binary.marshal(tpm_type=CommandResponseStream, buffer=carried, abort_on_error=True)]
+        with open(tmpname, "rb") as fh:
+            got = [TR.record_event(ev) for ev in Binary.marshal(tpm_type=CommandResponseStream, buffer=bytes_from_files(fh), abort_on_error=True)]
+        rec.case(("lazy", "bufferedreader", stream.sig), nontrivial=True)
+        rec.count("bufferedreader_runs")
+        if [(e.kind, e.path, e.tname, e.value) for e in whole] != [(e.kind, e.path, e.tname, e.value) for e in got]:
+            rec.violation("source-kind", "BufferedReader", f"decoding {len(carried)} bytes through bytes_from_files(open(..., 'rb')) gives {len(got)} events, from bytes {len(whole)}",
+                          dict(lazy="files", t="CommandResponseStream", d=carried.hex()))
+    except Exception as ex:
+        rec.count("bufferedreader_decode_error")
+    finally:
+        os.unlink(tmpname)
     # several files
     k = rng.randint(2, 3)
     cuts = sorted(rng.sample(range(1, max(2, len(carried))), min(k - 1, max(1, len(carried) - 1)))) if len(carried) > 2 else []
